@@ -16,11 +16,13 @@ extern int h_fail_fclose;   /* io_wrap.c */
 #include "filecase.h"
 #include <errno.h>
 #include <sys/stat.h>
+#include "ropts.h"
 
 /* ---------- truncation ---------- */
 static void try_open(hctx* h, const char* path, const uint8_t* buf, size_t k, int mode, int* first) {
     carquet_error_t err; memset(&err, 0, sizeof err);
     carquet_reader_options_t ro; carquet_reader_options_init(&ro);
+    h_vary_reader_options(&ro, buf, k);
     carquet_reader_t* rd = NULL;
     uint8_t* exact = NULL;
     if (mode == 0) rd = carquet_reader_open(path, &ro, &err);
